@@ -28,7 +28,7 @@ PATHS = ("cwrite", "block_to_file", "to_tim", "to_dat", "to_spec", "to_fft")
 
 def REQUIRED(tier):
     return ["path:cwrite", "path:block_to_file", "path:to_tim", "path:to_dat", "path:to_spec", "path:to_fft",
-            "readback_compared", "declared_width_checked", "spy:cwrite_calls", "dtype_mismatch_cases", "multi_call_writes", "path:reuse_name", "reuse_name:equal_length_products"]
+            "readback_compared", "declared_width_checked", "spy:cwrite_calls", "dtype_mismatch_cases", "multi_call_writes", "path:reuse_name", "reuse_name:equal_length_products", "dotted_basename_pairs"]
 
 
 def cases(tier, seed):
@@ -273,7 +273,8 @@ def _run_block_to_file(case, ctx):
     X = _values(rng, ns * nch, 32 if dt.startswith("float") or dt == "int64" else (8 if dt == "uint8" else 16)).reshape(nch, ns)
     ctx.evaluated(); ctx.count("path:block_to_file")
     out = os.path.join(ctx.tmp, f"c04b_{ctx.evaluations}.fil")
-    hdr = _mk_header(nch, 8, ns, out)
+    hdm = float(rng.integers(1, 4000)) / 8
+    hdr = _mk_header(nch, 8, ns, out, dm=hdm)
     blk = FilterbankBlock(X.astype(dt), hdr)
     _spy["log"].clear()
     name = blk.to_file(out)
@@ -291,7 +292,7 @@ def _run_block_to_file(case, ctx):
     back = fil.read_block(0, ns)
     if not np.array_equal(back.data, X.astype(np.float32)):
         ctx.violation("readback-values:block_to_file", "block read back differs", case)
-    _timing_ok(ctx, case, hdr, fil.header, "block_to_file")
+    _timing_ok(ctx, case, hdr, fil.header, "block_to_file", dm=hdm)
     ctx.nontrivial_case(case)
     os.unlink(name)
 
@@ -333,9 +334,16 @@ def _run_to_dat(case, ctx):
     x = _values(rng, ns, 8 if dt == "uint8" else 16).astype(dt)
     dm = float(rng.integers(0, 2000)) / 8
     ctx.evaluated(); ctx.count("path:to_dat")
-    base = os.path.join(ctx.tmp, f"c04d_{ctx.evaluations}")
+    base = os.path.join(ctx.tmp, f"c04d_{ctx.evaluations}" + ("_DM12.50" if case["dseed"] % 2 else ""))
     ts = TimeSeries(x, _ts_header(ns, base + ".tim", dm))
     name = ts.to_dat(base)
+    if case["dseed"] % 2:   # a sibling product whose basename differs only after the last dot (PRESTO trial naming) must not clobber it
+        ctx.count("dotted_basename_pairs")
+        sib = base[:-2] + "75"
+        TimeSeries((x[: max(1, ns // 2)] + 1).astype(x.dtype), _ts_header(max(1, ns // 2), sib + ".tim", dm + 0.25)).to_dat(sib)
+    if name != base + ".dat" or not os.path.exists(base + ".inf"):
+        ctx.violation("dat-file-name", f"to_dat({os.path.basename(base)!r}) wrote {os.path.basename(name)!r} / .inf present: {os.path.exists(base + '.inf')}", case)
+        return
     try:
         back = TimeSeries.from_dat(name)
     except Exception as exc:  # noqa: BLE001
@@ -391,9 +399,16 @@ def _run_to_fft(case, ctx):
     z, dm, FourierSeries = _fs(ctx, case, 6)
     ns = case["nsamps"]
     ctx.evaluated(); ctx.count("path:to_fft")
-    base = os.path.join(ctx.tmp, f"c04f_{ctx.evaluations}")
+    base = os.path.join(ctx.tmp, f"c04f_{ctx.evaluations}" + ("_DM12.50" if case["dseed"] % 2 else ""))
     fs = FourierSeries(z, _ts_header(2 * ns, base + ".tim", dm))
     name = fs.to_fft(base)
+    if case["dseed"] % 2:
+        ctx.count("dotted_basename_pairs")
+        sib = base[:-2] + "75"
+        FourierSeries(z[: max(1, ns // 2)] + 1, _ts_header(2 * max(1, ns // 2), sib + ".tim", dm + 0.25)).to_fft(sib)
+    if name != base + ".fft" or not os.path.exists(base + ".inf"):
+        ctx.violation("fft-file-name", f"to_fft({os.path.basename(base)!r}) wrote {os.path.basename(name)!r} / .inf present: {os.path.exists(base + '.inf')}", case)
+        return
     ctx.count("declared_width_checked")
     if os.path.getsize(name) != 8 * ns:
         ctx.violation("fft-not-raw-complex64", f".fft file is {os.path.getsize(name)} bytes for {ns} complex64", case)
